@@ -1,357 +1,256 @@
 /-
 C04, first sentence: **"Every pack and container the creator produces passes its own integrity
-check."**
+check."** — entry point (imports parts A–E) and non-vacuity: every main theorem is instantiated on
+concrete data, with every hypothesis discharged, *for every hash function with 32-byte output*.
 
-Summary of the statements (parts A–D are in `VerifiesA.lean` … `VerifiesD.lean`):
-
-* content pack      `content_created_verifies`, `content_created_openCheck`
-* directory pack    `directory_created_verifies`, `directory_created_openCheck`
-* manifest pack     `manifestOpen_manifestWrite`, `manifest_created_verifies`,
-                    `manifestWrite_layout`, `manifest_created_verifies_after_relocations`
-                    (and the `manifestCreate_*` forms, from the creator's inputs)
-* container pack    `container_pack_created_verifies` (`ContainerPack::check`)
-* container         `container_created_verifies` (`Container::check`, any packs that verify),
-                    `created_container_verifies`, `created_container_opens_and_verifies`
-                    (containers assembled from packs written by the three writers, in any order)
-
-The hash `H` is an arbitrary function with 32-byte output.
+* part A `VerifiesA.lean` — content and directory packs
+* part B `VerifiesB.lean` — manifest packs written by `manifestWrite` (Model/ManifestWriter.lean)
+* part C `VerifiesC.lean` — container packs and `Container::check`, for any packs that verify
+* part D `VerifiesD.lean` — the writers' packs verify; `manifestCreate` (the creator's inputs)
+* part E `VerifiesE.lean` — containers assembled from created packs
 -/
-import JubakoModel.Lemmas.VerifiesD
+import JubakoModel.Lemmas.VerifiesE
 
 namespace Jubako
 
 set_option linter.unusedSimpArgs false
 set_option linter.unusedVariables false
-set_option maxRecDepth 8000
+set_option maxRecDepth 100000
 
-/-! ### 1. packs written by the three writers -/
+namespace VerifiesExample
 
-/-- a pack as one of the three writers produces it, by its inputs -/
-inductive CreatedPack where
-  | manifest (vendor uuid freeData checkBlocks : Bytes) (store : VStore) (infos : List PackInfo)
-  | directory (vendor uuid freeData : Bytes) (d : DirIn)
-  | content (codec : Codec) (m : ContentPackMeta) (arrival : List Cluster)
-      (infos : List (Nat × Nat))
+/-! ### content pack: the clusters of `ContentFileExample` (one raw cluster with two blobs, one
+    compressed cluster), arriving in reverse order -/
 
-namespace CreatedPack
+open ContentFileExample (codec items arrival)
 
-def uuid : CreatedPack → Bytes
-  | .manifest _ u _ _ _ _ => u
-  | .directory _ u _ _ => u
-  | .content _ m _ _ => m.uuid
+/-- uuid 5…5 (the directory pack below has uuid 7…7, the manifest 10…10) -/
+def cmeta : ContentPackMeta := ⟨[1, 2, 3, 4], List.replicate 16 5, List.replicate 24 9⟩
+def cinfos : List (Nat × Nat) := ((Creator.init.addAll items).finalize).2
 
-def kind : CreatedPack → PackKind
-  | .manifest .. => .manifest
-  | .directory .. => .directory
-  | .content .. => .content
+theorem cmeta_wf : cmeta.WF := ⟨rfl, rfl, rfl⟩
 
-/-- the file the writer produces -/
-def bytes (H : Bytes → Bytes) : CreatedPack → Bytes
-  | .manifest v u fd cb s infos => manifestWrite H v u fd cb s infos
-  | .directory v u fd d => dirPackWrite H v u fd d
-  | .content codec m arrival infos => contentPackWrite H codec m arrival infos
+theorem content_size : cfCheckPos codec arrival cinfos + 37 + 64 < 2 ^ 48 := by
+  rw [cfCheckPos_eq]; decide
 
-/-- the field-width / size limits of the writer (see `ManifestLimits`,
-    `directoryOpen_dirPackWrite`, `contentOpen_contentPackWrite`); a manifest lists a directory
-    pack -/
-def Limits (H : Bytes → Bytes) : CreatedPack → Prop
-  | .manifest v u fd cb s infos =>
-    ManifestLimits v u fd cb s infos ∧ infos.any (fun i => i.kind = .directory) = true
-  | .directory v u fd d =>
-    v.length = 4 ∧ u.length = 16 ∧ fd.length = 24 ∧ d.stores.length < 256 ∧
-    d.indexes.length < 2 ^ 32 ∧ (dirPackWrite H v u fd d).length < 2 ^ 48
-  | .content codec m arrival infos =>
-    m.WF ∧ infos.length < 2 ^ 32 ∧ arrival.length < 2 ^ 32 ∧
-    cfCheckPos codec arrival infos + 37 + 64 < 2 ^ 64
+theorem content_limits (H : Bytes → Bytes) :
+    (CreatedPack.content codec cmeta arrival cinfos).Limits H :=
+  ⟨cmeta_wf, by decide, by decide, by have := content_size; omega⟩
 
-/-- **every pack a writer produces verifies** -/
-theorem verifies (H : Bytes → Bytes) (p : CreatedPack) (hl : p.Limits H)
-    (hH : ∀ x, (H x).length = 32) : PackVerifies H (p.bytes H) := by
-  cases p with
-  | manifest v u fd cb s infos => exact PackVerifies.manifest hl.1 hl.2 hH
-  | directory v u fd d =>
-    obtain ⟨h1, h2, h3, h4, h5, h6⟩ := hl
-    exact PackVerifies.directory H v u fd d h1 h2 h3 h4 h5 h6 hH
-  | content codec m arrival infos =>
-    obtain ⟨h1, h2, h3, h4⟩ := hl
-    exact PackVerifies.content H codec m arrival infos h1 h2 h3 h4 hH
+example (H : Bytes → Bytes) (hH : ∀ x, (H x).length = 32) :
+    packCheck H id (contentPackWrite H codec cmeta arrival cinfos) = .ok true :=
+  content_created_verifies H codec cmeta arrival cinfos cmeta_wf
+    (by have := content_size; omega) hH
 
-theorem uuid_length (H : Bytes → Bytes) (p : CreatedPack) (hl : p.Limits H) :
-    p.uuid.length = 16 := by
-  cases p with
-  | manifest v u fd cb s infos => exact hl.1.uuidLen
-  | directory v u fd d => exact hl.2.1
-  | content codec m arrival infos => exact hl.1.2.1
+example (H : Bytes → Bytes) (hH : ∀ x, (H x).length = 32) :
+    contentOpenCheck H (contentPackWrite H codec cmeta arrival cinfos) = .ok true :=
+  content_created_openCheck H codec cmeta arrival cinfos cmeta_wf (by decide) (by decide)
+    (by have := content_size; omega) hH
 
-/-- the header at the start of the written file names the writer's kind -/
-theorem header_kind (H : Bytes → Bytes) (p : CreatedPack) (hl : p.Limits H)
-    (hH : ∀ x, (H x).length = 32) (h : PackHeader) (hh : packHeaderOf (p.bytes H) = .ok h) :
-    h.kind = p.kind := by
-  cases p with
-  | manifest v u fd cb s infos =>
-    have := packHeaderOf_framePack H (manifestMask (mwBase cb s) infos.length)
-      (mwHeader v u cb s infos) (block (mwMH fd cb s infos).encode ++ mwMid cb s ++
-        infos.flatMap (fun p => block p.encode)) (mwHeader_WF hl.1) ⟨rfl, rfl⟩
-    rw [← manifestWrite_frame] at this
-    show h.kind = .manifest
-    rw [show bytes H (.manifest v u fd cb s infos) = manifestWrite H v u fd cb s infos from rfl,
-      this] at hh
-    injection hh with hh
-    rw [← hh]; rfl
-  | directory v u fd d =>
-    obtain ⟨h1, h2, h3, h4, h5, h6⟩ := hl
-    have hlen := d.written_length H v u fd h1 h2 h3 hH
-    have := packHeaderOf_framePack H id (d.header v u) (block (d.dh fd).encode ++ d.body)
-      (d.header_WF v u h1 h2 (by omega)) ⟨rfl, rfl⟩
-    rw [← dirPackWrite_frame] at this
-    show h.kind = .directory
-    rw [show bytes H (.directory v u fd d) = dirPackWrite H v u fd d from rfl, this] at hh
-    injection hh with hh
-    rw [← hh]; rfl
-  | content codec m arrival infos =>
-    obtain ⟨h1, h2, h3, h4⟩ := hl
-    have := packHeaderOf_framePack H id (cfHeader codec m arrival infos)
-      (block (cfCH codec m arrival infos).encode ++ (cfBytes codec arrival ++
-        (block (cfPtrData codec arrival) ++ block (cfInfoData infos))))
-      (cfHeader_WF codec m arrival infos h1 h4) ⟨rfl, rfl⟩
-    rw [← contentPackWrite_frame] at this
-    show h.kind = .content
-    rw [show bytes H (.content codec m arrival infos) = contentPackWrite H codec m arrival infos
-      from rfl, this] at hh
-    injection hh with hh
-    rw [← hh]; rfl
+/-! ### directory pack: the input of `DirFileExample` (two value stores, variants, one index) -/
 
-end CreatedPack
+open DirFileExample (vendor uuid freeData input hstores hlayout)
 
-/-- the (uuid, bytes) pairs handed to the container-pack writer -/
-def createdPacks (H : Bytes → Bytes) (cps : List CreatedPack) : List (Bytes × Bytes) :=
-  cps.map (fun p => (p.uuid, p.bytes H))
+theorem dir_limits (H : Bytes → Bytes) (hH : ∀ x, (H x).length = 32) :
+    input.Limits H vendor uuid freeData where
+  vendorLen := rfl
+  uuidLen := rfl
+  freeDataLen := rfl
+  entryCount := by decide
+  indexCount := by decide
+  entrySize := by rw [hlayout]; decide
+  propCount := by rw [hlayout]; decide
+  storeTails := by rw [hstores]; decide
+  entryTail := by rw [hlayout]; decide
+  fileSize := by
+    rw [dirPackWrite_length_formula H vendor uuid freeData input rfl rfl rfl hH]
+    simp only [DirIn.entryBytes, DirIn.esTail, hlayout, hstores]
+    decide
 
-/-- a container pack holding created packs, in the order given -/
-def createdContainer (H : Bytes → Bytes) (uuid freeData : Bytes) (cps : List CreatedPack) : Bytes :=
-  containerPackWrite uuid freeData (createdPacks H cps)
+theorem directory_limits (H : Bytes → Bytes) (hH : ∀ x, (H x).length = 32) :
+    (CreatedPack.directory vendor uuid freeData input).Limits H :=
+  ⟨rfl, rfl, rfl, by rw [hstores]; decide, by decide, (dir_limits H hH).fileSize⟩
 
-/-- the size limits of the container-pack writer -/
-structure ContainerLimits (H : Bytes → Bytes) (uuid freeData : Bytes) (cps : List CreatedPack) :
-    Prop where
-  uuidLen : uuid.length = 16
-  freeDataLen : freeData.length = 24
-  packs : ∀ p ∈ cps, p.Limits H
-  count : cps.length < 2 ^ 16
-  fileSize : (createdContainer H uuid freeData cps).length < 2 ^ 64
+example (H : Bytes → Bytes) (hH : ∀ x, (H x).length = 32) :
+    packCheck H id (dirPackWrite H vendor uuid freeData input) = .ok true :=
+  directory_created_verifies H vendor uuid freeData input (dir_limits H hH) hH
 
-section Container
+example (H : Bytes → Bytes) (hH : ∀ x, (H x).length = 32) :
+    directoryOpenCheck H (dirPackWrite H vendor uuid freeData input) = .ok true :=
+  directory_created_openCheck H vendor uuid freeData input rfl rfl rfl (by rw [hstores]; decide)
+    (by decide) (dir_limits H hH).fileSize hH
 
-variable {H : Bytes → Bytes} {uuid freeData : Bytes} {cps : List CreatedPack}
+/-! ### manifest pack: `ManifestPackCreator::finalize` for the two packs above (content pack
+    added first, as `BasicCreator` does; empty locators = one-file container) -/
 
-theorem createdPacks_uuid_length (L : ContainerLimits H uuid freeData cps) :
-    ∀ p ∈ createdPacks H cps, p.1.length = 16 := by
-  intro p hp
-  obtain ⟨q, hq, rfl⟩ := List.mem_map.mp hp
-  exact q.uuid_length H (L.packs q hq)
+def mvendor : Bytes := [1, 2, 3, 4]
+def muuid : Bytes := List.replicate 16 10
+def mfree : Bytes := List.replicate 24 0
 
-theorem createdPacks_verify (L : ContainerLimits H uuid freeData cps)
-    (hH : ∀ x, (H x).length = 32) : ∀ p ∈ createdPacks H cps, PackVerifies H p.2 := by
-  intro p hp
-  obtain ⟨q, hq, rfl⟩ := List.mem_map.mp hp
-  exact q.verifies H (L.packs q hq) hH
+/-- the `PackData` of the two packs; sizes and stored hashes are those a creator would record (the
+    theorems do not depend on them), the two packs have different free data -/
+def packData : List (PackData × Bytes) :=
+  [(⟨List.replicate 16 5, 311, .content, 1, List.replicate 24 9, .blake3 (List.replicate 32 1)⟩, []),
+   (⟨List.replicate 16 7, 403, .directory, 0, List.replicate 24 8, .blake3 (List.replicate 32 2)⟩, [])]
 
-/-- the packs `blindOpen` finds in a created container -/
-def createdPackAts (H : Bytes → Bytes) (cps : List CreatedPack) : List PackAt :=
-  (concatLayout (createdPacks H cps)).2.map (fun l => ⟨l.uuid, l.pos, l.size⟩)
+/-- what `finalize` computes: check-info blocks at 128 and 165 (37 bytes each, CRC included), free
+    data ids = ranks in the sorted value store -/
+theorem manifestInfos_packData :
+    manifestInfos packData =
+      [⟨List.replicate 16 5, 311, (128, 37), 1, .content, 0, 1, []⟩,
+       ⟨List.replicate 16 7, 403, (165, 37), 0, .directory, 0, 0, []⟩] := by decide
 
-/-- **A created container pack passes `ContainerPack::check`**: a container pack assembled from
-    packs written by the manifest / directory / content writers, in any order and number, is
-    opened blindly to exactly those packs, and every one of them opens and verifies. -/
-theorem created_container_pack_verifies (L : ContainerLimits H uuid freeData cps)
-    (hH : ∀ x, (H x).length = 32) :
-    blindOpen (createdContainer H uuid freeData cps) = .ok (createdPackAts H cps) ∧
-    packsCheck H (createdContainer H uuid freeData cps) (createdPackAts H cps) = .ok true :=
-  container_pack_created_verifies H uuid freeData (createdPacks H cps) L.uuidLen L.freeDataLen
-    (createdPacks_uuid_length L) (by rw [createdPacks, List.length_map]; exact L.count) L.fileSize
-    (createdPacks_verify L hH)
-
-/-- **A created one-file container passes `Container::check`** (hypotheses on the view): the entry
-    file is a container pack assembled from created packs; it opens to `c`; every pack `c`'s
-    manifest lists is either in the file or recorded with an empty location, and no pack listed
-    as *directory* shares its uuid with a manifest pack of the file. -/
-theorem created_container_verifies (L : ContainerLimits H uuid freeData cps)
-    (hH : ∀ x, (H x).length = 32) (fs : FS) (entry : String) (c : ContainerView)
-    (hfile : FS.get fs entry = some (createdContainer H uuid freeData cps))
-    (hopen : containerOpen fs entry = .ok c)
-    (hloc : ∀ i ∈ c.infos, c.Encloses i.uuid ∨ i.location = [])
-    (hdirkind : ∀ i ∈ c.infos, i.kind = .directory → ∀ p ∈ cps, p.uuid = i.uuid →
-      p.kind ≠ .manifest) :
-    containerCheck H fs c = .ok true := by
-  apply container_created_verifies H fs entry uuid freeData (createdPacks H cps) c hfile L.uuidLen
-    L.freeDataLen (createdPacks_uuid_length L) (by rw [createdPacks, List.length_map]; exact L.count)
-    L.fileSize (createdPacks_verify L hH) hopen hloc
-  intro i hi hk p hp hpu h hh
-  obtain ⟨q, hq, rfl⟩ := List.mem_map.mp hp
-  rw [q.header_kind H (L.packs q hq) hH h hh]
-  exact hdirkind i hi hk q hq hpu
-
-/-! ### 2. the container opens: from the writer's inputs to the view -/
-
-theorem layoutLocs_region_conv (off : Nat) (packs : List (Bytes × Bytes)) :
-    ∀ p ∈ packs, ∃ l ∈ layoutLocs off packs, l.uuid = p.1 ∧ l.size = p.2.length ∧
-      slice ((packs.map (·.2)).flatten) (l.pos - 128 - off) l.size = p.2 := by
-  induction packs generalizing off with
-  | nil => intro p hp; cases hp
-  | cons a ps ih =>
+theorem create_limits : ManifestCreateLimits mvendor muuid mfree packData where
+  vendorLen := rfl
+  uuidLen := rfl
+  freeDataLen := rfl
+  packsWF := by
     intro p hp
-    rcases List.mem_cons.mp hp with rfl | hp
-    · refine ⟨⟨p.1, p.2.length, 128 + off⟩, by simp [layoutLocs], rfl, rfl, ?_⟩
-      simp only [List.map_cons, List.flatten_cons]
-      rw [show 128 + off - 128 - off = 0 by omega]
-      exact slice_append_left _ _
-    · obtain ⟨l, hl, h1, h2, h3⟩ := ih (off + a.2.length) p hp
-      have hb := layoutLocs_bound (off + a.2.length) ps l hl
-      refine ⟨l, by simp only [layoutLocs]; exact List.mem_cons_of_mem _ hl, h1, h2, ?_⟩
-      simp only [List.map_cons, List.flatten_cons]
-      rw [slice_skip _ _ _ _ (by omega),
-        show l.pos - 128 - off - a.2.length = l.pos - 128 - (off + a.2.length) by omega]
-      exact h3
+    simp only [packData, List.mem_cons, List.not_mem_nil, or_false] at hp
+    rcases hp with rfl | rfl
+    · refine ⟨rfl, by decide, by decide, by decide, ?_⟩
+      intro x hx; injection hx with hx; rw [← hx]; rfl
+    · refine ⟨rfl, by decide, by decide, by decide, ?_⟩
+      intro x hx; injection hx with hx; rw [← hx]; rfl
+  count := by decide
+  storeTail := by decide
+  fileSize := by
+    rw [manifestInfos_packData]
+    simp only [mwCheckPos, mwBase, mwMid, List.length_append, VStore.encode_eq, block_length,
+      VStore.data_length]
+    decide
 
-/-- every pack given to the container-pack writer is found by `blindOpen`, under its uuid -/
-theorem containerPackWrite_packAt_conv (uuid freeData : Bytes) (packs : List (Bytes × Bytes))
-    (hu : uuid.length = 16) (hf : freeData.length = 24) :
-    ∀ p ∈ packs, ∃ q ∈ (concatLayout packs).2.map (fun l => (⟨l.uuid, l.pos, l.size⟩ : PackAt)),
-      q.uuid = p.1 ∧ slice (containerPackWrite uuid freeData packs) q.origin q.size = p.2 := by
+/-- the creator's manifest opens to one pack info per `add_pack`, in order -/
+example (H : Bytes → Bytes) :
+    (manifestOpen (manifestCreate H mvendor muuid mfree packData)).map' (·.2.2) =
+      .ok [⟨List.replicate 16 5, 311, (128, 37), 1, .content, 0, 1, []⟩,
+           ⟨List.replicate 16 7, 403, (165, 37), 0, .directory, 0, 0, []⟩] := by
+  rw [manifestOpen_manifestCreate create_limits (by decide), ← manifestInfos_packData]
+  rfl
+
+/-- … verifies … -/
+example (H : Bytes → Bytes) (hH : ∀ x, (H x).length = 32) :
+    manifestCheck H (manifestCreate H mvendor muuid mfree packData) = .ok true :=
+  manifestCreate_verifies create_limits hH
+
+example (H : Bytes → Bytes) (hH : ∀ x, (H x).length = 32) :
+    manifestOpenCheck H (manifestCreate H mvendor muuid mfree packData) = .ok true :=
+  manifestCreate_openCheck create_limits (by decide) hH
+
+/-- … has the layout the C12 theorems need (pack infos at 128 + 2·37 + value store) … -/
+example (H : Bytes → Bytes) :
+    ∃ h m base, ManifestLayout (manifestCreate H mvendor muuid mfree packData) h m base
+      (manifestInfos packData) :=
+  ⟨_, _, _, manifestCreate_layout create_limits⟩
+
+/-- … and still verifies after the content pack is relocated twice, an unknown uuid is tried, and
+    the directory pack is relocated -/
+example (H : Bytes → Bytes) (hH : ∀ x, (H x).length = 32) :
+    manifestCheck H ([(List.replicate 16 5, [97, 98]), (List.replicate 16 99, [120]),
+        (List.replicate 16 5, []), (List.replicate 16 7, [47, 100])].foldl
+      (fun (st : Bytes × List PackInfo) op =>
+        (fileStep (mwBase (checkBlocksOf packData) (manifestStore packData)) st.2 st.1 op,
+          specStep st.2 op))
+      (manifestCreate H mvendor muuid mfree packData, manifestInfos packData)).1 = .ok true :=
+  manifestCreate_verifies_after_relocations create_limits hH _ (by decide)
+
+/-- the tool itself (`setLocationAt`) on the created manifest: succeeds, reports the old location,
+    and the file it writes verifies -/
+example (H : Bytes → Bytes) (hH : ∀ x, (H x).length = 32) :
+    ∃ f', setLocationAt (manifestCreate H mvendor muuid mfree packData) 0 (List.replicate 16 5)
+        [97, 98] = .ok (f', some []) ∧ manifestCheck H f' = .ok true := by
+  obtain ⟨f', h1, h2, -⟩ := manifest_created_set_location (H := H) create_limits.toLimits hH
+    (List.replicate 16 5) [97, 98] (by decide)
+  refine ⟨f', ?_, h2⟩
+  rw [show manifestCreate H mvendor muuid mfree packData = manifestWrite H mvendor muuid mfree
+    (checkBlocksOf packData) (manifestStore packData) (manifestInfos packData) from rfl, h1,
+    manifestInfos_packData]
+  rfl
+
+/-! ### one-file container: content pack, directory pack, manifest — the order `BasicCreator`
+    writes them in -/
+
+def cuuid : Bytes := List.replicate 16 30
+def cfree : Bytes := List.replicate 24 0
+
+def theManifest : CreatedPack :=
+  .manifest mvendor muuid mfree (checkBlocksOf packData) (manifestStore packData)
+    (manifestInfos packData)
+
+def cps : List CreatedPack :=
+  [.content codec cmeta arrival cinfos, .directory vendor uuid freeData input, theManifest]
+
+theorem manifest_limits (H : Bytes → Bytes) : theManifest.Limits H :=
+  ⟨create_limits.toLimits, manifestInfos_any_directory packData (by decide)⟩
+
+theorem packs_limits (H : Bytes → Bytes) (hH : ∀ x, (H x).length = 32) :
+    ∀ p ∈ cps, p.Limits H := by
   intro p hp
-  obtain ⟨l, hl, h1, h2, h3⟩ := layoutLocs_region_conv 0 packs p hp
-  have hl' : l ∈ (concatLayout packs).2 := by rw [concatLayout_eq]; exact hl
-  have hreg := containerPackWrite_region uuid freeData packs hu hf l hl'
-  rw [concatLayout_eq] at hreg
-  refine ⟨⟨l.uuid, l.pos, l.size⟩, List.mem_map.mpr ⟨l, hl', rfl⟩, h1, ?_⟩
-  show slice (containerPackWrite uuid freeData packs) l.pos l.size = p.2
-  rw [hreg]
-  simpa using h3
+  simp only [cps, List.mem_cons, List.not_mem_nil, or_false] at hp
+  rcases hp with rfl | rfl | rfl
+  · exact content_limits H
+  · exact directory_limits H hH
+  · exact manifest_limits H
 
-theorem find?_uuid_of_mem {ps : List PackAt} {u : Bytes} {q : PackAt} (hq : q ∈ ps)
-    (hu : q.uuid = u) : ∃ q', ps.find? (fun p => p.uuid == u) = some q' := by
-  cases hf : ps.find? (fun p => p.uuid == u) with
-  | some q' => exact ⟨q', rfl⟩
-  | none =>
-    rw [List.find?_eq_none] at hf
-    exact absurd (by simpa using hu) (hf q hq)
+theorem container_limits (H : Bytes → Bytes) (hH : ∀ x, (H x).length = 32) :
+    ContainerLimits H cuuid cfree cps where
+  uuidLen := rfl
+  freeDataLen := rfl
+  packs := packs_limits H hH
+  count := by decide
+  fileSize := by
+    have hu : ∀ p ∈ createdPacks H cps, p.1.length = 16 := by
+      intro p hp
+      obtain ⟨q, hq, rfl⟩ := List.mem_map.mp hp
+      exact q.uuid_length H (packs_limits H hH q hq)
+    have hc : (contentPackWrite H codec cmeta arrival cinfos).length < 2 ^ 48 := by
+      have := content_size
+      rw [contentPackWrite_frame, framePack_length H id _ _
+        (cfHeader_WF codec cmeta arrival cinfos cmeta_wf (by omega)) hH,
+        ← cfCheckPos_body codec cmeta arrival cinfos cmeta_wf]
+      exact this
+    have hd := (dir_limits H hH).fileSize
+    have hm : (manifestWrite H mvendor muuid mfree (checkBlocksOf packData) (manifestStore packData)
+        (manifestInfos packData)).length < 2 ^ 48 := by
+      rw [manifestWrite_length create_limits.toLimits hH]
+      exact create_limits.fileSize
+    rw [createdContainer, containerPackWrite_length cuuid cfree _ rfl rfl hu, cpwCheckPos,
+      locTable_length _ (layoutLocs_uuid_length 0 _ hu), layoutLocs_length]
+    simp only [createdPacks, cps, theManifest, CreatedPack.bytes, CreatedPack.uuid, cpwBody,
+      List.map_cons, List.map_nil, List.flatten_cons, List.flatten_nil, List.length_append,
+      List.length_nil, List.length_cons]
+    omega
 
-/-- **A created one-file container opens and passes `Container::check`** — from the writers'
-    inputs only.  The entry file is a container pack assembled, in any order, from created packs
-    among which exactly one manifest `manifest mv mu mfd cb store infos`; its infos describe the
-    file:
-    * `hloc` — every listed pack is in the file (by uuid) or has an empty recorded location;
-    * `hdiren` — the packs listed as *directory* are in the file;
-    * `hdirkind` — … and are not stored under the uuid of the manifest pack.
-    Then `Container::new` succeeds, returns the writer's pack infos, and `Container::check`
-    answers `true`. -/
-theorem created_container_opens_and_verifies (L : ContainerLimits H uuid freeData cps)
-    (hH : ∀ x, (H x).length = 32) (fs : FS) (entry : String)
-    (hfile : FS.get fs entry = some (createdContainer H uuid freeData cps))
-    (mv mu mfd cb : Bytes) (store : VStore) (infos : List PackInfo)
-    (hmem : CreatedPack.manifest mv mu mfd cb store infos ∈ cps)
-    (hone : ∀ p ∈ cps, p.kind = .manifest → p = .manifest mv mu mfd cb store infos)
-    (hloc : ∀ i ∈ infos, i.uuid ∈ cps.map (·.uuid) ∨ i.location = [])
-    (hdiren : ∀ i ∈ infos, i.kind = .directory → i.uuid ∈ cps.map (·.uuid))
-    (hdirkind : ∀ i ∈ infos, i.kind = .directory → i.uuid ≠ mu) :
-    ∃ c, containerOpen fs entry = .ok c ∧ c.infos = infos ∧
-      c.manifest = manifestWrite H mv mu mfd cb store infos ∧
-      containerCheck H fs c = .ok true := by
-  have hu := L.uuidLen
-  have hf := L.freeDataLen
-  have hbo := (created_container_pack_verifies L hH).1
-  have hML := L.packs _ hmem
-  -- every found pack is a created pack, and conversely
-  have hat : ∀ q ∈ createdPackAts H cps, ∃ p ∈ cps, p.uuid = q.uuid ∧
-      slice (createdContainer H uuid freeData cps) q.origin q.size = p.bytes H := by
-    intro q hq
-    obtain ⟨p, hp, h1, h2⟩ := containerPackWrite_packAt uuid freeData (createdPacks H cps) hu hf q hq
-    obtain ⟨r, hr, rfl⟩ := List.mem_map.mp hp
-    exact ⟨r, hr, h1, h2⟩
-  have hconv : ∀ p ∈ cps, ∃ q ∈ createdPackAts H cps, q.uuid = p.uuid ∧
-      slice (createdContainer H uuid freeData cps) q.origin q.size = p.bytes H := by
-    intro p hp
-    exact containerPackWrite_packAt_conv uuid freeData (createdPacks H cps) hu hf (p.uuid, p.bytes H)
-      (List.mem_map.mpr ⟨p, hp, rfl⟩)
-  have henc : ∀ u, u ∈ cps.map (·.uuid) →
-      ∃ q, (createdPackAts H cps).find? (fun p => p.uuid == u) = some q := by
-    intro u hu'
-    obtain ⟨p, hp, rfl⟩ := List.mem_map.mp hu'
-    obtain ⟨q, hq, hqu, -⟩ := hconv p hp
-    exact find?_uuid_of_mem hq hqu
-  -- the manifest found is the manifest written
-  have hism : ∀ q ∈ createdPackAts H cps,
-      isManifestAt (createdContainer H uuid freeData cps) q = true →
-      slice (createdContainer H uuid freeData cps) q.origin q.size =
-        manifestWrite H mv mu mfd cb store infos := by
-    intro q hq hm
-    obtain ⟨p, hp, -, hs⟩ := hat q hq
-    obtain ⟨h, h1, -, -⟩ := p.verifies H (L.packs p hp) hH
-    have hk : h.kind = .manifest := by
-      unfold isManifestAt at hm
-      rw [hs] at hm
-      change (match packHeaderOf (p.bytes H) with
-        | .ok h => decide (h.kind = .manifest) | _ => false) = true at hm
-      rw [h1] at hm
-      simpa using hm
-    rw [p.header_kind H (L.packs p hp) hH h h1] at hk
-    rw [hs, hone p hp hk]
-    rfl
-  obtain ⟨qm, hqm, -, hqms⟩ := hconv _ hmem
-  have hqmm : isManifestAt (createdContainer H uuid freeData cps) qm = true := by
-    obtain ⟨h, h1, -, -⟩ := (CreatedPack.manifest mv mu mfd cb store infos).verifies H hML hH
-    have hk := (CreatedPack.manifest mv mu mfd cb store infos).header_kind H hML hH h h1
-    unfold isManifestAt
-    rw [hqms]
-    change (match packHeaderOf ((CreatedPack.manifest mv mu mfd cb store infos).bytes H) with
-      | .ok h => decide (h.kind = .manifest) | _ => false) = true
-    rw [h1]
-    simpa using hk
-  obtain ⟨mp, hfind⟩ : ∃ mp, (createdPackAts H cps).find?
-      (isManifestAt (createdContainer H uuid freeData cps)) = some mp := by
-    cases hfm : (createdPackAts H cps).find? (isManifestAt (createdContainer H uuid freeData cps)) with
-    | some mp => exact ⟨mp, rfl⟩
-    | none =>
-      rw [List.find?_eq_none] at hfm
-      exact absurd hqmm (hfm qm hqm)
-  have hmps := hism mp (List.mem_of_find?_eq_some hfind) (List.find?_some hfind)
-  have hmo := manifestOpen_manifestWrite (H := H) hML.1 hML.2
-  -- the directory pack is located in the file
-  obtain ⟨di, hlast⟩ : ∃ di, (infos.filter (fun i => i.kind = .directory)).getLast? = some di := by
-    obtain ⟨i, hi, hik⟩ := List.any_eq_true.mp hML.2
-    have hne : infos.filter (fun i => i.kind = .directory) ≠ [] := by
-      intro h0
-      have : i ∈ infos.filter (fun i => i.kind = .directory) := List.mem_filter.mpr ⟨hi, hik⟩
-      rw [h0] at this
-      cases this
-    exact ⟨_, List.getLast?_eq_getLast_of_ne_nil hne⟩
-  have hdi : di ∈ infos ∧ di.kind = .directory := by
-    have := List.mem_of_getLast? hlast
-    rw [List.mem_filter] at this
-    exact ⟨this.1, by simpa using this.2⟩
-  obtain ⟨qd, hqd⟩ := henc di.uuid (hdiren di hdi.1 hdi.2)
-  have hopen : containerOpen fs entry = .ok ⟨entry, createdPackAts H cps,
-      manifestWrite H mv mu mfd cb store infos, infos, bytesOfLocated fs ⟨entry, qd⟩⟩ := by
-    rw [containerOpen_eq, hfile]
-    simp only
-    rw [hbo, Outcome.ok_bind_eq, hfind]
-    simp only
-    rw [hmps, hmo, Outcome.ok_bind_eq]
-    unfold openTail
-    simp only
-    rw [hlast]
-    simp only
-    rw [locate_enclosed fs _ _ _ _ qd hqd, Outcome.ok_bind_eq]
-  refine ⟨_, hopen, rfl, rfl, ?_⟩
-  apply created_container_verifies L hH fs entry _ hfile hopen
-  · intro i hi
-    rcases hloc i hi with h | h
-    · exact Or.inl (henc i.uuid h)
-    · exact Or.inr h
-  · intro i hi hk p hp hpu hpk
-    rw [hone p hp hpk] at hpu
-    exact hdirkind i hi hk hpu.symm
+/-- `ContainerPack::check` on the created container: three packs found, all verify -/
+example (H : Bytes → Bytes) (hH : ∀ x, (H x).length = 32) :
+    ∃ ps, blindOpen (createdContainer H cuuid cfree cps) = .ok ps ∧ ps.length = 3 ∧
+      packsCheck H (createdContainer H cuuid cfree cps) ps = .ok true := by
+  obtain ⟨h1, h2⟩ := created_container_pack_verifies (container_limits H hH) hH
+  refine ⟨_, h1, ?_, h2⟩
+  simp [createdPackAts, concatLayout_eq, layoutLocs_length, createdPacks, cps]
 
-end Container
+/-- `Container::new` then `Container::check` on the file system holding only that file: the
+    container opens, to the pack infos `finalize` computed, and the check answers `true` -/
+example (H : Bytes → Bytes) (hH : ∀ x, (H x).length = 32) :
+    ∃ c, containerOpen [("e", createdContainer H cuuid cfree cps)] "e" = .ok c ∧
+      c.infos = manifestInfos packData ∧
+      containerCheck H [("e", createdContainer H cuuid cfree cps)] c = .ok true := by
+  obtain ⟨c, h1, h2, -, h4⟩ := created_container_opens_and_verifies (container_limits H hH) hH
+    [("e", createdContainer H cuuid cfree cps)] "e" rfl mvendor muuid mfree (checkBlocksOf packData)
+    (manifestStore packData) (manifestInfos packData)
+    (by simp [cps, theManifest])
+    (by
+      intro p hp hk
+      simp only [cps, List.mem_cons, List.not_mem_nil, or_false] at hp
+      rcases hp with rfl | rfl | rfl
+      · cases hk
+      · cases hk
+      · rfl)
+    (by rw [manifestInfos_packData]; decide)
+    (by rw [manifestInfos_packData]; decide)
+    (by rw [manifestInfos_packData]; decide)
+  exact ⟨c, h1, h2, h4⟩
+
+end VerifiesExample
 
 end Jubako
